@@ -714,6 +714,29 @@ func (v *modelView) base(t *sysl.Type) (string, bool, bool) {
 	return "?", false, opt
 }
 
+// aliasedObject follows an alias to the tuple or table of the same application it stands for (nil if it is none).
+func (v *modelView) aliasedObject(t *sysl.Type, depth int) *sysl.Type {
+	ref := t.GetTypeRef().GetRef()
+	if ref == nil || depth > 4 {
+		return nil
+	}
+	path := ref.GetPath()
+	if len(path) >= 2 && path[0] == ioApp {
+		path = path[1:]
+	}
+	if len(path) != 1 {
+		return nil
+	}
+	target := v.app.GetTypes()[path[0]]
+	if target == nil {
+		return nil
+	}
+	if fieldDefs(target) != nil || target.GetTuple() != nil || target.GetRelation() != nil {
+		return target
+	}
+	return v.aliasedObject(target, depth+1)
+}
+
 func attrStr(t *sysl.Type, key string) string {
 	if a := t.GetAttrs()[key]; a != nil {
 		return a.GetS()
@@ -799,6 +822,12 @@ func (v *modelView) facts() [][]string {
 		if defs := fieldDefs(t); defs != nil || t.GetTuple() != nil || t.GetRelation() != nil {
 			fs.add("T", name, "object")
 			v.fields(fs, name, defs, 0)
+			continue
+		}
+		// a type that adds nothing to the type it extends is imported as an alias of it: it has that type's fields
+		if target := v.aliasedObject(t, 0); target != nil {
+			fs.add("T", name, "object")
+			v.fields(fs, name, fieldDefs(target), 0)
 			continue
 		}
 		fs.add("T", name, "named")
@@ -1209,7 +1238,11 @@ func interopImport(w *tr.Writer, sc *ioScenario, logger *logrus.Logger) {
 		main := fmt.Sprintf("import doc%s as %s %s\n", ext, ioApp, mode)
 		stage(w, sc, "import", nil, tr.Ev{"via": "stmt"})
 		mod, err = compileText(map[string]string{"main.sysl": main, "doc" + ext: content}, "main.sysl")
-		if !stage(w, sc, "compile", err, nil) {
+		if err != nil {
+			// what the importer wrote, for the record (the import statement runs the same importer internally)
+			text, _ = runImporter(sc, file, content, logger)
+		}
+		if !stage(w, sc, "compile", err, tr.Ev{"text": text}) {
 			return
 		}
 	} else {
